@@ -128,6 +128,10 @@ pub fn op_steps() -> u32 {
     OPSTEPS.with(|c| c.get())
 }
 
+pub fn peek_marks() -> u128 {
+    MARKS.with(|m| m.get())
+}
+
 pub fn take_marks() -> u128 {
     MARKS.with(|m| m.replace(0))
 }
